@@ -404,9 +404,128 @@ func genAsync(t *rapid.T) AsyncCase {
 		PanicEvery: rapid.SampledFrom([]int{0, 0, 3, 50}).Draw(t, "panicevery"), SleepEvery: rapid.SampledFrom([]int{0, 0, 7, 100}).Draw(t, "sleepevery")}
 }
 
+// BurstCase: single producer, so the submission order is total. Each phase queues exactly N functions
+// behind a gated head (one drainer lifetime takes exactly N functions when it started on an empty queue),
+// keeps the last of them running while Late more functions are submitted, and then lets everything finish.
+type BurstPhase struct {
+	N    int `json:"n"`
+	Late int `json:"late"`
+}
+
+type BurstCase struct {
+	Phases []BurstPhase `json:"phases"`
+}
+
+func runBursts(c BurstCase) vlib.Result {
+	vlib.Logs.Take()
+	res := vlib.Result{Classes: []string{"async-bursts"}}
+	tm := timer.New("c19b")
+	tm.Start()
+	defer tm.Stop()
+	var seq, submitted int64
+	var inflight, overlap int32
+	var bad atomic.Value
+	var runs []*int32
+	var mu sync.Mutex
+	mk := func(block chan struct{}, started chan struct{}) func() {
+		id := atomic.AddInt64(&submitted, 1)
+		n := new(int32)
+		mu.Lock()
+		runs = append(runs, n)
+		mu.Unlock()
+		return func() {
+			if atomic.AddInt32(&inflight, 1) != 1 {
+				atomic.StoreInt32(&overlap, 1)
+			}
+			if atomic.AddInt32(n, 1) == 1 {
+				if got := atomic.AddInt64(&seq, 1); got != id && bad.Load() == nil {
+					bad.Store(fmt.Sprintf("the function submitted as number %d ran as number %d (not FIFO, or one ran twice / was lost before it)", id, got))
+				}
+			}
+			if started != nil {
+				close(started)
+			}
+			if block != nil {
+				<-block
+			}
+			atomic.AddInt32(&inflight, -1)
+		}
+	}
+	for pi, ph := range c.Phases {
+		g1, g2, tStarted := make(chan struct{}), make(chan struct{}), make(chan struct{})
+		if ph.N >= 2 {
+			tm.Async(mk(g1, nil))
+			for i := 0; i < ph.N-2; i++ {
+				tm.Async(mk(nil, nil))
+			}
+		}
+		tm.Async(mk(g2, tStarted))
+		close(g1)
+		select {
+		case <-tStarted:
+		case <-time.After(10 * time.Second):
+			close(g2)
+			res.Err = fmt.Errorf("phase %d: the last of %d queued functions did not start within 10 s", pi, ph.N)
+			return res
+		}
+		for i := 0; i < ph.Late; i++ {
+			tm.Async(mk(nil, nil))
+		}
+		close(g2)
+		want := atomic.LoadInt64(&submitted)
+		if !vlib.WaitUntil(10*time.Second, func() bool { return atomic.LoadInt64(&seq) >= want }) {
+			res.Err = fmt.Errorf("phase %d: %d functions submitted, only %d ran within 10 s", pi, want, atomic.LoadInt64(&seq))
+			return res
+		}
+		// the drainer ends its lifetime here (queue empty); give it a moment so that the next phase starts a new one
+		time.Sleep(200 * time.Microsecond)
+	}
+	time.Sleep(time.Millisecond)
+	if atomic.LoadInt32(&overlap) != 0 {
+		res.Err = fmt.Errorf("two Async functions ran at the same time")
+		return res
+	}
+	if v := bad.Load(); v != nil {
+		res.Err = fmt.Errorf("%s", v.(string))
+		return res
+	}
+	mu.Lock()
+	defer mu.Unlock()
+	for i, n := range runs {
+		if k := atomic.LoadInt32(n); k != 1 {
+			res.Err = fmt.Errorf("function %d ran %d times (want exactly once)", i+1, k)
+			return res
+		}
+	}
+	res.NonTrivial = true
+	return res
+}
+
+func genBursts(t *rapid.T) BurstCase {
+	var c BurstCase
+	n := rapid.IntRange(1, 4).Draw(t, "nphases")
+	for i := 0; i < n; i++ {
+		var ph BurstPhase
+		if rapid.Bool().Draw(t, "boundary") {
+			// sizes at and around powers of two (internal batch / compaction / growth thresholds)
+			k := rapid.IntRange(0, 13).Draw(t, "pow")
+			ph.N = (1 << k) + rapid.IntRange(-1, 1).Draw(t, "delta")
+			if ph.N < 1 {
+				ph.N = 1
+			}
+		} else {
+			ph.N = rapid.IntRange(1, 5000).Draw(t, "n")
+		}
+		ph.Late = rapid.SampledFrom([]int{0, 1, 1, 2, 50}).Draw(t, "late")
+		c.Phases = append(c.Phases, ph)
+	}
+	return c
+}
+
 func TestCheck(t *testing.T) {
 	r := vlib.NewRunner(t, "C19")
 	vlib.RunCheck(r, vlib.Check[Case]{Name: "taskpool", N: r.Pick(1500, 40000), Gen: genPool, Run: runPool, RecordCurrent: true})
 	vlib.RunCheck(r, vlib.Check[AsyncCase]{Name: "async", N: r.Pick(1500, 40000), Gen: genAsync, Run: runAsync, RecordCurrent: true})
+	vlib.RunCheck(r, vlib.Check[BurstCase]{Name: "async-bursts", N: r.Pick(1500, 40000), Gen: genBursts, Run: runBursts, RecordCurrent: true})
 	r.Finish()
 }
